@@ -54,6 +54,20 @@ def gen_cases(rng, tier):
                 en.append(rng.choice([thr8, thr8 + 8, 10**9, -8]))     # blocked: >= threshold or negative
             else:
                 en.append(rng.choice([0, 1, 2, 4, 8, 9, 12, 15]) if thr8 == 16 else rng.randint(0, 40))
+        # an isolated pocket: an admissible voxel all of whose 26 periodic neighbours are blocked (a peak there has no path at all)
+        pocket = None
+        if rng.random() < 0.3:
+            dims = rng.choice([[3, 4, 5], [4, 4, 3], [3, 3, 5], [5, 3, 4], [4, 3, 5]])
+            nv = dims[0] * dims[1] * dims[2]
+            en = [rng.choice([0, 1, 2, 4, 8, 9, 12, 15]) if thr8 == 16 else rng.randint(0, 40) for _k in range(nv)]
+            pocket = rng.randrange(nv)
+            px = (pocket // (dims[1] * dims[2]), (pocket // dims[2]) % dims[1], pocket % dims[2])
+            for dx in (-1, 0, 1):
+                for dy in (-1, 0, 1):
+                    for dz in (-1, 0, 1):
+                        if (dx, dy, dz) != (0, 0, 0):
+                            q = ((px[0] + dx) % dims[0], (px[1] + dy) % dims[1], (px[2] + dz) % dims[2])
+                            en[(q[0] * dims[1] + q[1]) * dims[2] + q[2]] = 10**9
         adm = [k for k in range(nv) if 0 <= en[k] < thr8]
         if len(adm) < 2:
             continue
@@ -61,9 +75,11 @@ def gen_cases(rng, tier):
         for _q in range(rng.randint(3, 5)):
             queries.append({'method': rng.choice(METHODS), 's': rng.choice(adm), 't': rng.choice(adm)})
         percs = []
-        for _p in range(rng.choice([0, 1, 1, 2])):
+        for _p in range(rng.choice([0, 1, 1, 2]) if pocket is None else 2):
             axes = rng.choice(['x', 'y', 'z', 'xy', 'xz', 'yz', 'xyz'])
             peaks = rng.sample(adm, min(len(adm), rng.randint(1, 4)))
+            if pocket is not None and pocket not in peaks:
+                peaks.insert(rng.randrange(len(peaks)), pocket)        # never last: the peaks after it must still be examined
             percs.append({'axes': axes, 'peaks': peaks})
         sites = [[rng.randint(-3, 12) for _ in range(3)] for _ in range(4)]
         cases.append({'dims': dims, 'en8': en, 'thr8': thr8, 'diag': rng.random() < 0.6, 'queries': queries, 'percs': percs, 'sites': sites})
